@@ -1,2 +1,158 @@
--- placeholder driver (model for C02 not built yet)
-def main : IO Unit := pure ()
+/-
+  Driver for the exposure-gate model (C02).  One line = one class shape + all requests against it:
+
+    S <nclasses> { C <exposeClass> <nmembers> { <key> <member> } } I <n> { <key> <val> } R <nreq> { q <batch> <oneway> <method> <nargs> { <name> } }
+      member := mf <fn> | ms <fn> | mc <fn> | mp <exposeProp> <ofn> <ofn> <ofn> | ma <val>
+      fn     := f <name> <fid> <expose> <oneway>          ofn := <fn> | x
+      val    := vd | vi <exposed> <hasCall> <callId> <initId> | vc <exposed> <hasCall> <callId> <initId>
+      key / name inside fn := comma separated code points ("-" = empty)
+      request name := s<code points> | h | u
+  Reply:
+    builderr:<err>
+    ok M <names> O <names> A <names> { | <reply> <effects> }      names := cps;cps;..  ("-" = none), effects := n,n,.. ("-" = none)
+  The gate configuration is the one extracted from the current source (Pyro.Gen.C02).
+-/
+import PyroModel.Expose
+import Driver.Util
+
+open Pyro Pyro.Expose Driver
+
+abbrev P (α : Type) := List String → Option (α × List String)
+
+def pBool : P Bool
+  | "1" :: r => some (true, r)
+  | "0" :: r => some (false, r)
+  | _ => none
+
+def pNat : P Nat
+  | t :: r => t.toNat?.map (·, r)
+  | _ => none
+
+def pName : P Name
+  | t :: r => (parseNatList t).map (·, r)
+  | _ => none
+
+def pFn : P FnDecl
+  | "f" :: r => do
+    let (n, r) ← pName r
+    let (i, r) ← pNat r
+    let (e, r) ← pBool r
+    let (o, r) ← pBool r
+    pure ({ fname := n, fid := i, expose := e, oneway := o }, r)
+  | _ => none
+
+def pOptFn : P (Option FnDecl)
+  | "x" :: r => some (none, r)
+  | ts => (pFn ts).map fun (f, r) => (some f, r)
+
+def pHelper : P Helper := fun r => do
+  let (e, r) ← pBool r
+  let (c, r) ← pBool r
+  let (ci, r) ← pNat r
+  let (ii, r) ← pNat r
+  pure ({ exposed := e, hasCall := c, callId := ci, initId := ii }, r)
+
+def pVal : P Val
+  | "vd" :: r => some (.data, r)
+  | "vi" :: r => (pHelper r).map fun (h, r) => (.inst h, r)
+  | "vc" :: r => (pHelper r).map fun (h, r) => (.cls h, r)
+  | _ => none
+
+def pMember : P MemberDecl
+  | "mf" :: r => (pFn r).map fun (f, r) => (.func f, r)
+  | "ms" :: r => (pFn r).map fun (f, r) => (.static f, r)
+  | "mc" :: r => (pFn r).map fun (f, r) => (.clsm f, r)
+  | "mp" :: r => do
+    let (e, r) ← pBool r
+    let (g, r) ← pOptFn r
+    let (s, r) ← pOptFn r
+    let (d, r) ← pOptFn r
+    pure (.prop e g s d, r)
+  | "ma" :: r => (pVal r).map fun (v, r) => (.attr v, r)
+  | _ => none
+
+def pMany {α : Type} (p : P α) : Nat → P (List α)
+  | 0 => fun r => some ([], r)
+  | n + 1 => fun r => do
+    let (a, r) ← p r
+    let (as, r) ← pMany p n r
+    pure (a :: as, r)
+
+def pKeyed {α : Type} (p : P α) : P (Name × α) := fun r => do
+  let (k, r) ← pName r
+  let (a, r) ← p r
+  pure ((k, a), r)
+
+def pClass : P ClassDecl
+  | "C" :: r => do
+    let (e, r) ← pBool r
+    let (n, r) ← pNat r
+    let (ms, r) ← pMany (pKeyed pMember) n r
+    pure ({ exposeClass := e, members := ms }, r)
+  | _ => none
+
+def pReqName : P ReqName
+  | "h" :: r => some (.hashable, r)
+  | "u" :: r => some (.unhashable, r)
+  | t :: r => if t.startsWith "s" then (parseNatList (t.drop 1).toString).map fun n => (.str n, r) else none
+  | _ => none
+
+def pReq : P Req
+  | "q" :: r => do
+    let (b, r) ← pBool r
+    let (o, r) ← pBool r
+    let (m, r) ← pReqName r
+    let (n, r) ← pNat r
+    let (as, r) ← pMany pReqName n r
+    pure ({ batch := b, oneway := o, method := m, args := as }, r)
+  | _ => none
+
+def pLine : List String → Option (List ClassDecl × List (Name × Val) × List Req)
+  | "S" :: r => do
+    let (n, r) ← pNat r
+    let (cs, r) ← pMany pClass n r
+    match r with
+    | "I" :: r =>
+      let (n, r) ← pNat r
+      let (inst, r) ← pMany (pKeyed pVal) n r
+      match r with
+      | "R" :: r =>
+        let (n, r) ← pNat r
+        let (qs, r) ← pMany pReq n r
+        if r.isEmpty then pure (cs, inst, qs) else none
+      | _ => none
+    | _ => none
+  | _ => none
+
+def errTok : Err → String
+  | .priv => "priv" | .unexposed => "unexposed" | .unprop => "unprop"
+  | .attr => "attr" | .type => "type" | .index => "index"
+
+def namesTok (ns : List Name) : String :=
+  if ns.isEmpty then "-" else ";".intercalate (ns.map natListToString)
+
+def replyTok : Reply → String
+  | .result => "result"
+  | .none => "none"
+  | .error e => "error:" ++ errTok e
+
+def cfg : Cfg :=
+  { callTypeFirst := Pyro.Gen.C02.callGateTypeFirst
+    getPriv := Pyro.Gen.C02.getGatePrivate
+    setPriv := Pyro.Gen.C02.setGatePrivate }
+
+def step (toks : List String) : String :=
+  match pLine toks with
+  | none => "bad-op"
+  | some (cs, inst, qs) =>
+    match buildShape cs inst with
+    | .error e => "builderr:" ++ errTok e
+    | .ok sh =>
+      let md := metadata sh
+      let head := s!"ok M {namesTok md.methods} O {namesTok md.oneway} A {namesTok md.attrs}"
+      let parts := qs.map fun q =>
+        let (rep, eff) := dispatch cfg sh q
+        replyTok rep ++ " " ++ natListToString eff
+      " | ".intercalate (head :: parts)
+
+def main : IO Unit := runDriver step
